@@ -188,7 +188,19 @@ Vanish04 == \* the argument name is unknown after the use (reading it is an erro
             \cup {<<Each("x", Var("xs"), <<u, H(";")>>, NoElse, 1), Assign("name", BoolL(TRUE), 1), P(Var("name"))>> : u \in ArgUses}
 Good04 == {[tree |-> Tree07(pb), page |-> "home", d |-> Data07, tags |-> <<"c04", "component-arguments">>] : pb \in Vanish04}
 
+(* ---------- C18: template names that themselves end in the extension (file layouts/base.tw.tw is the template layouts/base.tw) ---------- *)
+Dotted18 ==
+  {[tree |-> [n \in {"home", "list", "layouts/base.tw", "components/menu", "components/menu.tw", "oops.tw"} |->
+                CASE n = "home" -> Tpl(Ref("layouts/base.tw"), <<InsertB("content", <<H("page:"), P(Var("who"))>>, 1), InsertE("title", StrL("t"), 1)>>)
+                  [] n = "list" -> Tpl(NoUse, <<H("<ul>"), Comp(Ref("components/menu"), <<>>, <<>>, 1), H("</ul><ol>"), Comp(Ref("components/menu.tw"), <<>>, <<>>, 1), H("</ol>")>>)
+                  [] n = "layouts/base.tw" -> Tpl(NoUse, <<H("<html>"), Reserve("title", 1), H("|"), Reserve("content", 1), H("</html>")>>)
+                  [] n = "components/menu" -> Tpl(NoUse, <<H("plain menu")>>)
+                  [] n = "components/menu.tw" -> Tpl(NoUse, <<H("dotted menu")>>)
+                  [] n = "oops.tw" -> Tpl(NoUse, <<H("x"), P(Var("zz"))>>)],
+    page |-> pg, d |-> Data07, tags |-> <<"c18", "name-ends-in-extension">>] : pg \in {"home", "list", "oops.tw"}}
+
 Cases == CASE Family = "c06" -> Good06 \cup Bad06
+           [] Family = "c18dotted" -> Dotted18
            [] Family = "c04comp" -> Good04
            [] Family = "c07collide" -> Collide07
            [] Family = "c10tree" -> Esc10
@@ -229,7 +241,9 @@ Expectation == CASE status = "done" /\ Family = "c07collide" -> [kind |-> "error
                  [] status = "err" -> [kind |-> "err", why |-> why]
                  [] OTHER -> [kind |-> "any"]
 Record == [files |-> Files(cas.tree), cfg |-> [dir |-> "tpl", ext |-> ".tw"], load |-> LoadExpect(cas.tree),
-           ops |-> IF status = "loaderr" THEN <<>> ELSE <<[op |-> "String", name |-> cas.page, data |-> EncData(cas.d), expect |-> Expectation]>>,
+           ops |-> IF status = "loaderr" THEN <<>> ELSE <<[op |-> "String", name |-> cas.page, data |-> EncData(cas.d), expect |-> Expectation,
+                                                         \* a fault in the page itself is reported with the page's own path (C13, C18)
+                                                         path |-> IF Family = "c18dotted" /\ status = "err" THEN cas.page ELSE ""]>>,
            tags |-> cas.tags]
 Gen == (status # "run" /\ Emit_) => PrintT(ToJson(Record))
 =============================================================================
